@@ -1,0 +1,118 @@
+//go:build verif
+
+// Contracts for package heap (comment-only; compiled only with the build tag "verif",
+// read by /verif/engine). Property C11. Verified once on the generic bodies: E is an opaque
+// element sort and Less an arbitrary strict weak order, which covers every instantiation.
+
+package heap
+
+// Less is a strict weak order: irreflexive, transitive, and incomparability is transitive
+//@ pure func swo(h *Heap[E]) bool = h.Less != nil && (forall a E :: !h.Less(a, a)) && (forall a E, b E, c E :: h.Less(a, b) && h.Less(b, c) ==> h.Less(a, c)) && (forall a E, b E, c E :: !h.Less(a, b) && !h.Less(b, c) ==> !h.Less(a, c))
+// parent p is not greater than its children (within the first n positions)
+//@ pure func okAt(h *Heap[E], p int, n int) bool = (2*p+1 < n ==> !h.Less(h.Slice[2*p+1], h.Slice[p])) && (2*p+2 < n ==> !h.Less(h.Slice[2*p+2], h.Slice[p]))
+// heap order on the first n positions
+//@ pure func heapOK(h *Heap[E], n int) bool = forall p int :: 0 <= p && p < n ==> okAt(h, p, n)
+// the other child of i's parent (i >= 1) is not less than that parent
+//@ pure func siblingOK(h *Heap[E], i int, n int) bool = i >= 1 ==> ((i == 2*((i-1)/2)+1 && i+1 < n ==> !h.Less(h.Slice[i+1], h.Slice[(i-1)/2])) && (i == 2*((i-1)/2)+2 ==> !h.Less(h.Slice[i-1], h.Slice[(i-1)/2])))
+// position i's own upward edge
+//@ pure func upOK(h *Heap[E], i int) bool = i >= 1 ==> !h.Less(h.Slice[i], h.Slice[(i-1)/2])
+
+//@ func (*Heap).swap
+//@   functype Heap.Less pure
+//@   requires h != nil && 0 <= i && i < len(h.Slice) && 0 <= j && j < len(h.Slice)
+//@   ensures h.Slice[i] == old(h.Slice[j]) && h.Slice[j] == old(h.Slice[i]) && sameSlice(h.Slice, old(h.Slice)) && h.Less == old(h.Less)
+//@   ensures forall k int :: 0 <= k && k < len(h.Slice) && k != i && k != j ==> h.Slice[k] == old(h.Slice[k])
+//@   modifies elems(h.Slice)
+
+// down: sift the element at i0 down within the first n positions. On entry every parent is in order
+// with its children except i0 itself and i0's parent (whose other child is in order); the children
+// of i0 are not less than i0's parent.
+//@ func (*Heap).down
+//@   functype Heap.Less pure
+//@   results moved
+//@   requires h != nil && swo(h) && 0 <= i0 && i0 <= n && n <= len(h.Slice)
+//@   requires [edges]   forall p int :: 0 <= p && p < n && p != i0 && (i0 == 0 || p != (i0-1)/2) ==> okAt(h, p, n)
+//@   requires [sibling] i0 < n ==> siblingOK(h, i0, n)
+//@   requires [bridge]  i0 >= 1 ==> (2*i0+1 < n ==> !h.Less(h.Slice[2*i0+1], h.Slice[(i0-1)/2])) && (2*i0+2 < n ==> !h.Less(h.Slice[2*i0+2], h.Slice[(i0-1)/2]))
+//@   ensures [C11.down.order] forall p int :: 0 <= p && p < n && (i0 == 0 || p != (i0-1)/2) ==> okAt(h, p, n)
+//@   ensures [C11.down.sib]   i0 < n ==> siblingOK(h, i0, n)
+//@   ensures [C11.down.moved] moved && i0 < n ==> upOK(h, i0)
+//@   ensures [C11.down.stay]  !moved ==> (forall k int :: 0 <= k && k < len(h.Slice) ==> h.Slice[k] == old(h.Slice[k]))
+//@   ensures [C11.down.tail]  sameSlice(h.Slice, old(h.Slice)) && h.Less == old(h.Less) && forall k int :: n <= k && k < len(h.Slice) ==> h.Slice[k] == old(h.Slice[k])
+//@   modifies elems(h.Slice)
+//@   loop 0 invariant i0 <= i && (i < n || i == i0) && sameSlice(h.Slice, old(h.Slice)) && h.Less == old(h.Less)
+//@   loop 0 invariant forall p int :: 0 <= p && p < n && p != i && (i0 == 0 || p != (i0-1)/2 || i > i0) ==> okAt(h, p, n)
+//@   loop 0 invariant i0 < n ==> siblingOK(h, i0, n)
+//@   loop 0 invariant i >= 1 ==> (2*i+1 < n ==> !h.Less(h.Slice[2*i+1], h.Slice[(i-1)/2])) && (2*i+2 < n ==> !h.Less(h.Slice[2*i+2], h.Slice[(i-1)/2]))
+//@   loop 0 invariant forall k int :: n <= k && k < len(h.Slice) ==> h.Slice[k] == old(h.Slice[k])
+//@   loop 0 invariant i == i0 ==> (forall k int :: 0 <= k && k < len(h.Slice) ==> h.Slice[k] == old(h.Slice[k]))
+//@   loop 0 invariant i > i0 ==> upOK(h, i0)
+
+// marker used to trigger the instantiation of the (universally quantified) bound m in up's contract
+//@ uninterp func bnd(m Int) bool
+//@ axiom forall m Int :: bnd(m)
+// state in which up(j) may be called, for a bound m: every parent below m is in order with its children
+// except that j's own upward edge may be broken; j's children are not less than j's parent
+//@ pure func upPre(h *Heap[E], j int, m int) bool = 0 <= j && j < m && m <= len(h.Slice) && (forall p int :: 0 <= p && p < m && (j == 0 || p != (j-1)/2) ==> okAt(h, p, m)) && siblingOK(h, j, m) && (j >= 1 ==> (2*j+1 < m ==> !h.Less(h.Slice[2*j+1], h.Slice[(j-1)/2])) && (2*j+2 < m ==> !h.Less(h.Slice[2*j+2], h.Slice[(j-1)/2])))
+
+// up: sift the element at j0 up. For EVERY bound m for which the entry condition held, the first m
+// positions are in heap order afterwards; positions that are no ancestors of j0 are untouched.
+//@ func (*Heap).up
+//@   functype Heap.Less pure
+//@   requires h != nil && swo(h) && 0 <= j && j < len(h.Slice)
+//@   ensures [C11.up.order] forall m int :: bnd(m) && old(upPre(h, j, m)) ==> heapOK(h, m)
+//@   ensures [C11.up.frame] sameSlice(h.Slice, old(h.Slice)) && h.Less == old(h.Less) && forall k int :: j < k && k < len(h.Slice) ==> h.Slice[k] == old(h.Slice[k])
+//@   modifies elems(h.Slice)
+//@   loop 0 invariant 0 <= j && j <= j0 && j < len(h.Slice) && sameSlice(h.Slice, old(h.Slice)) && h.Less == old(h.Less)
+//@   loop 0 invariant forall m int :: bnd(m) && old(upPre(h, j0, m)) ==> upPre(h, j, m)
+//@   loop 0 invariant forall k int :: j0 < k && k < len(h.Slice) ==> h.Slice[k] == old(h.Slice[k])
+
+//@ func (*Heap).zpop
+//@   functype Heap.Less pure
+//@   requires h != nil && len(h.Slice) > 0
+//@   ensures result == old(h.Slice[len(h.Slice)-1]) && len(h.Slice) == old(len(h.Slice)) - 1 && h.Slice.arr == old(h.Slice.arr) && h.Slice.off == old(h.Slice.off) && h.Less == old(h.Less)
+//@   ensures forall k int :: 0 <= k && k < len(h.Slice) ==> h.Slice[k] == old(h.Slice[k])
+//@   modifies h.Slice, elems(h.Slice)
+
+//@ func (*Heap).Len
+//@   functype Heap.Less pure
+//@   requires h != nil
+//@   ensures result == len(h.Slice)
+//@   modifies nothing
+
+// Peek: the root (explicit panic on an empty heap: callers must know the heap is non-empty)
+//@ func (*Heap).Peek
+//@   functype Heap.Less pure
+//@   requires h != nil && len(h.Slice) > 0
+//@   ensures result == h.Slice[0]
+//@   modifies nothing
+
+// Push: one element more, heap order kept
+//@ func (*Heap).Push
+//@   functype Heap.Less pure
+//@   requires h != nil && swo(h) && heapOK(h, len(h.Slice))
+//@   ensures [C11.push.order] heapOK(h, len(h.Slice)) && len(h.Slice) == old(len(h.Slice)) + 1 && h.Less == old(h.Less)
+//@   modifies h.Slice, elems(h.Slice)
+
+// Pop: removes and returns the root, heap order kept
+//@ func (*Heap).Pop
+//@   functype Heap.Less pure
+//@   requires h != nil && swo(h) && len(h.Slice) > 0 && heapOK(h, len(h.Slice))
+//@   ensures [C11.pop.order] heapOK(h, len(h.Slice)) && len(h.Slice) == old(len(h.Slice)) - 1 && result == old(h.Slice[0]) && h.Less == old(h.Less)
+//@   modifies h.Slice, elems(h.Slice)
+
+// Remove(i): removes and returns exactly the element at i, heap order kept
+//@ func (*Heap).Remove
+//@   functype Heap.Less pure
+//@   requires h != nil && swo(h) && 0 <= i && i < len(h.Slice) && heapOK(h, len(h.Slice))
+//@   ensures [C11.remove.order] heapOK(h, len(h.Slice)) && len(h.Slice) == old(len(h.Slice)) - 1 && result == old(h.Slice[i]) && h.Less == old(h.Less)
+//@   modifies h.Slice, elems(h.Slice)
+
+// Fix(i): restores heap order after the element at i changed (every other edge must be in order)
+//@ func (*Heap).Fix
+//@   functype Heap.Less pure
+//@   requires h != nil && swo(h) && i < len(h.Slice)
+//@   requires i >= 0 ==> (forall p int :: 0 <= p && p < len(h.Slice) && p != i && (i == 0 || p != (i-1)/2) ==> okAt(h, p, len(h.Slice))) && siblingOK(h, i, len(h.Slice)) && (i >= 1 ==> (2*i+1 < len(h.Slice) ==> !h.Less(h.Slice[2*i+1], h.Slice[(i-1)/2])) && (2*i+2 < len(h.Slice) ==> !h.Less(h.Slice[2*i+2], h.Slice[(i-1)/2])))
+//@   requires i < 0 ==> heapOK(h, len(h.Slice))
+//@   ensures [C11.fix.order] heapOK(h, len(h.Slice)) && sameSlice(h.Slice, old(h.Slice)) && h.Less == old(h.Less)
+//@   modifies elems(h.Slice)
